@@ -299,6 +299,10 @@ structure JP2 (R : VM → VM → Prop) {A B α : Type} (x : A → B → M α) : 
   app : ∀ a b, Pres R (x a b)
 structure JP3 (R : VM → VM → Prop) {A B C α : Type} (x : A → B → C → M α) : Prop where
   app : ∀ a b c, Pres R (x a b c)
+structure JP4 (R : VM → VM → Prop) {A B C D α : Type} (x : A → B → C → D → M α) : Prop where
+  app : ∀ a b c d, Pres R (x a b c d)
+structure JP5 (R : VM → VM → Prop) {A B C D E α : Type} (x : A → B → C → D → E → M α) : Prop where
+  app : ∀ a b c d e, Pres R (x a b c d e)
 
 /-- syntax-directed proof search for goals `Pres R x`: `pres_search R po leaf` (relation, its `PreOrd` proof, tactic for the
     leaves).  A `have x := v; …` of the do-notation (join point or plain value) is moved into the context; for a join point
@@ -314,6 +318,10 @@ macro_rules
         | (have hx : JP2 $R x := ⟨by (intro a b; dsimp only [x]; clear x; pres_search $R $po $leaf)⟩
            clear_value x)
         | (have hx : JP3 $R x := ⟨by (intro a b c; dsimp only [x]; clear x; pres_search $R $po $leaf)⟩
+           clear_value x)
+        | (have hx : JP4 $R x := ⟨by (intro a b c d; dsimp only [x]; clear x; pres_search $R $po $leaf)⟩
+           clear_value x)
+        | (have hx : JP5 $R x := ⟨by (intro a b c d e; dsimp only [x]; clear x; pres_search $R $po $leaf)⟩
            clear_value x)
         | clear_value x))
 macro_rules
@@ -334,6 +342,9 @@ macro_rules
       | with_reducible (refine JP1.app ?_ _; assumption)
       | with_reducible (refine JP2.app ?_ _ _; assumption)
       | with_reducible (refine JP3.app ?_ _ _ _; assumption)
+      | with_reducible (refine JP4.app ?_ _ _ _ _; assumption)
+      | with_reducible (refine JP5.app ?_ _ _ _ _ _; assumption)
+      | with_reducible apply Pres.ite $po
       | split
       | dsimp only))
 
